@@ -93,6 +93,10 @@ class MiniEval:
                 return not self.truth(v)
             if isinstance(e.op, ast.USub):
                 return -v
+            if isinstance(e.op, ast.UAdd) and isinstance(v, (int, float)):
+                return +v
+            if isinstance(e.op, ast.Invert) and isinstance(v, int):
+                return ~int(v)
             raise Unsupported('unary operator')
         if isinstance(e, ast.BoolOp):
             if isinstance(e.op, ast.And):
